@@ -85,7 +85,7 @@ def run_index_case(case, res, what, prop):
                 return
             try:
                 obs = observe.observe(w, ref_full, isolated=True, what=what)
-            except world.ReaderBlocked:
+            except (world.ReaderBlocked, observe.ReadFailed):
                 failures.append((f'read-retries-after-flush', dict(height=h)))
                 return
             for field, detail in observe.compare(obs, observe.ref_at(blocks, h, ACTIVATION), what):
@@ -103,8 +103,12 @@ def run_index_case(case, res, what, prop):
             if not w.at_daemon_tip():
                 failures.append(('parked-below-daemon-tip',
                                  dict(height=w.db.state.height, daemon=len(blocks) - 1)))
-            obs = observe.observe(w, ref_full, what=what)
-            for field, detail in observe.compare(obs, ref_full, what):
+            try:
+                obs = observe.observe(w, ref_full, what=what)
+            except (world.ReaderBlocked, observe.ReadFailed) as e:
+                failures.append(('caught-up:read-failed', dict(error=repr(e))))
+                obs = None
+            for field, detail in (observe.compare(obs, ref_full, what) if obs else ()):
                 failures.append((f'caught-up:{field}', _d(detail)))
             res.count('observations')
             if w.loop.errors:
